@@ -1,7 +1,11 @@
-// Package c18 checks property C18 (not built yet).
+// Package c18 checks property C18 (under construction).
 package c18
 
 import (
+	"fmt"
+	"path/filepath"
+	"sort"
+
 	"verif/harness/mbt"
 	"verif/harness/props/reg"
 )
@@ -9,4 +13,20 @@ import (
 func init() { reg.Register("C18", Run) }
 
 // Run is the C18 check.
-func Run(tier, replay string) { mbt.Infra("check C18 is not built yet") }
+func Run(tier, replay string) {
+	et, notes := loadEnumTypes(filepath.Join(mbt.Repo, "ir", "enum"), "enum")
+	tt, notes2 := loadEnumTypes(filepath.Join(mbt.Repo, "ir", "types"), "types")
+	var names []string
+	total := 0
+	for n, e := range et {
+		names = append(names, n)
+		total += len(e.Consts)
+	}
+	sort.Strings(names)
+	fmt.Println(len(names), total, names)
+	for n, e := range tt {
+		fmt.Println("types:", n, len(e.Consts))
+	}
+	fmt.Println(notes, notes2)
+	mbt.Infra("probe")
+}
